@@ -227,7 +227,7 @@ def midstep(p0: int, p1: int, p2: int, p3: int, actor: int, target: int, pn: int
     return hx.end(m.timestep == 2)
 
 
-BOUNDS = {"quick": {"systems": "1..3", "mid-timestep actions": "1 (2 for n=2)", "priorities": "all ints"},
+BOUNDS = {"quick": {"systems": "1..3 with symbolic priorities; one queue of 17 with concrete priorities", "mid-timestep actions": "1 (2 for n=2)", "priorities": "all ints"},
           "thorough": {"systems": "1..4", "mid-timestep actions": "<= 2", "priorities": "all ints"}}
 OUTSIDE = ["more than 2 structural actions in one timestep", "actions performed by a system that was itself added in that timestep"]
 STUBS = []
